@@ -61,6 +61,21 @@ def mk_case(rng, kind, quick):
     return c
 
 
+def mk_window(rng):
+    """buffet traffic of a tensor that lacks the OUTER loop rank, evicted on the middle rank of a three-deep nest: the same line at the same position of the
+    evict-on rank, but in another outer iteration, lies in another window"""
+    order = NAMES[-3:]
+    tranks = rng.choice([[order[1], order[2]], [order[2]]])
+    epl = rng.choice([1, 2])
+    shape = 5
+    rows_r = gen_rows(rng, 3, ncoords=5, maxrows=rng.randint(6, 12), shape=shape)
+    c = {"kind": "buffet", "order": order, "tranks": tranks, "mask": [1 if r in tranks else 0 for r in order], "epl": epl, "shape": shape, "rows_r": rows_r, "rows_w": [],
+         "slack": 0, "ev": order[1], "evn": 2, "staged": 0, "caps": [rng.choice([1, 2, 100]) * epl * 32]}
+    if rng.random() < 0.4:
+        c["rows_w"] = [dict(r, w=1) for r in rows_r if rng.random() < 0.6]
+    return c
+
+
 def mk_straddle(rng):
     """cache traffic in which a line straddles the end of the rank: its first touch is a write to the insertion staging area (the line is pinned), a later
     write addresses a regular element of the same line (which has to be written back)"""
@@ -135,6 +150,7 @@ def run(ctx):
     n = 250 if ctx.quick else 5000
     cases = [mk_case(rng, "buffet", ctx.quick) for _ in range(n)] + [mk_case(rng, "cache", ctx.quick) for _ in range(n)]
     cases += [mk_straddle(rng) for _ in range(12 if ctx.quick else 200)]
+    cases += [mk_window(rng) for _ in range(40 if ctx.quick else 600)]
     cases += [mk_filter(rng) for _ in range(n // 3)] + [mk_combine(rng) for _ in range(n // 3)] + [mk_buffet2(rng) for _ in range(n // 3)]
     part = family.run_family(ctx, "C17", cases, "harness.exec_buffer", "BufferTrace.tla", "BufferTrace.cfg",
                              op_of=lambda c, lg, st: c["kind"], where_of=lambda c, lg, st: where(c))
